@@ -167,7 +167,9 @@ Definition same_named (name target : string) : bool :=
   String.eqb name (lower target ++ "_f")%string ||
   existsb (fun p => String.eqb (fst p) name && String.eqb (snd p) target) aliases.
 (* the call of the target sits in mutually exclusive branches (value-dependent argument marshalling) *)
-Definition branching : list string := [ "cg_configure_c_ptr" ].
+(* cg_1to1_read_global_f: when no interface is counted the C function may still be called (with no arrays) only to
+   obtain its status; the current code calls it once *)
+Definition branching : list string := [ "cg_configure_c_ptr"; "cg_1to1_read_global_f" ].
 (* C functions without a status *)
 Definition void_targets : list string :=
   [ "cg_error_exit"; "cg_error_print"; "cg_get_error"; "cg_error_handler"; "cgio_error_code"; "cgio_error_exit";
